@@ -217,7 +217,27 @@ func genCoef(t *rapid.T, label string) string {
 	}
 }
 
+// integer boundaries at which machine-integer or float fast paths would break
+var c04IntBoundaries = []string{"9007199254740992", "9007199254740993", "9223372036854775807", "9223372036854775808", "18446744073709551615", "18446744073709551616",
+	"4294967296", "4294967295", "3037000500", "2147483648", "1000000000000000", "999999999999999", "10000000000000000000", "99999999999999999999", "4611686018427387904"}
+
 func genOperand(t *rapid.T, label string) decOperand {
+	switch rapid.IntRange(0, 7).Draw(t, label+"int") {
+	case 0: // plain integers of 8-20 digits (exponent 0)
+		n := rapid.IntRange(8, 20).Draw(t, label+"nd")
+		b := make([]byte, n)
+		for i := range b {
+			b[i] = byte('0' + rapid.IntRange(0, 9).Draw(t, label+"id"))
+		}
+		if b[0] == '0' {
+			b[0] = '9'
+		}
+		return decOperand{Neg: rapid.Bool().Draw(t, label+"neg"), Coef: string(b)}
+	case 1: // at or next to a machine boundary
+		v, _ := new(big.Int).SetString(rapid.SampledFrom(c04IntBoundaries).Draw(t, label+"bnd"), 10)
+		v.Add(v, big.NewInt(int64(rapid.IntRange(-2, 2).Draw(t, label+"bd"))))
+		return decOperand{Neg: rapid.Bool().Draw(t, label+"neg"), Coef: v.String()}
+	}
 	return decOperand{Neg: rapid.Bool().Draw(t, label+"neg"), Coef: genCoef(t, label), Exp: rapid.IntRange(-30, 30).Draw(t, label+"exp")}
 }
 
